@@ -387,7 +387,11 @@ func (r *Recomposer) recomp(v any, rv reflect.Value) {
 		switch {
 		case et.Kind() == reflect.Interface:
 			for k, m := range vm {
-				rv.SetMapIndex(reflect.ValueOf(k), reflect.ValueOf(r.recompAny(m)))
+				mv := reflect.ValueOf(r.recompAny(m))
+				if !mv.IsValid() { // a nil member stays a nil member
+					mv = reflect.Zero(et)
+				}
+				rv.SetMapIndex(reflect.ValueOf(k), mv)
 			}
 		case et.Kind() == reflect.Ptr:
 			et = et.Elem()
@@ -482,6 +486,10 @@ func (r *Recomposer) recomp(v any, rv reflect.Value) {
 		}
 	case reflect.Interface:
 		v = r.recompAny(v)
+		if v == nil { // reflect.ValueOf(nil) can not be Set
+			rv.Set(reflect.Zero(rv.Type()))
+			break
+		}
 		rv.Set(reflect.ValueOf(v))
 
 	case reflect.Bool:
@@ -546,6 +554,10 @@ func (r *Recomposer) setValue(v any, rv reflect.Value, sf *reflect.StructField) 
 		rv.Set(reflect.ValueOf(v).Convert(rv.Type()))
 	case reflect.Interface:
 		v = r.recompAny(v)
+		if v == nil { // reflect.ValueOf(nil) can not be Set
+			rv.Set(reflect.Zero(rv.Type()))
+			break
+		}
 		rv.Set(reflect.ValueOf(v))
 	case reflect.Ptr:
 		ev := reflect.New(rv.Type().Elem())
